@@ -242,6 +242,18 @@ static int mode_c15(const Caps& D, const Caps& P, int tier) {
           if (!okd || !msgd) { char b[512]; snprintf(b, sizeof b, "\"solution\":\"%s\",\"context\":%d,\"fn\":\"%s\",\"sig\":\"%s\",\"scalar\":\"d\",\"tuple\":%d,\"value\":\"%.17g\",\"printed_error\":%s", sol.c_str(), ctx, e.name, e.sig, t, vals_d[t], msgd ? "true" : "false"); viol("C15", sol + " [context " + std::to_string(ctx) + "]: masa_eval_" + e.name + "<double>(" + e.sig + ") is not provided but " + (okd ? "printed no MASA ERROR line" : "returned a value other than -1.33"), b); }
           if (!okl || !msgl) { char b[512]; snprintf(b, sizeof b, "\"solution\":\"%s\",\"context\":%d,\"fn\":\"%s\",\"sig\":\"%s\",\"scalar\":\"ld\",\"tuple\":%d,\"value\":\"%.21Lg\",\"printed_error\":%s", sol.c_str(), ctx, e.name, e.sig, t, vals_l[t], msgl ? "true" : "false"); viol("C15", sol + " [context " + std::to_string(ctx) + "]: masa_eval_" + e.name + "<long double>(" + e.sig + ") is not provided but " + (okl ? "printed no MASA ERROR line" : "returned a value other than -1.33"), b); }
         }
+        // sign lattice ("at arbitrary arguments"): in the fresh context every scalar argument runs over {0, positive, negative}, all
+        // 3^arity combinations, so a forwarder or override that answers only on a coordinate plane / half-space is reached
+        if (ctx == 0 && e.ns > 0) {
+          static const LD SGN[3] = {0.0L, 0.4375L, -1.3125L}; int ncomb = 1; for (int q = 0; q < e.ns; q++) ncomb *= 3;
+          for (int c = 0; c < ncomb; c++) {
+            ApiArgs A = args_tuple(0); int cc = c; for (int q = 0; q < e.ns; q++) { A.s[q] = SGN[cc % 3]; cc /= 3; }
+            double vd = 0; LD vl = 0; std::string o1 = capture([&] { vd = e.cd(A); }), o2 = capture([&] { vl = e.cl(A); }); tr += 2; va += 2;
+            bool okd = vd == (double)-1.33, okl = vl == (LD)-1.33, msgd = o1.find("MASA ERROR") != std::string::npos, msgl = o2.find("MASA ERROR") != std::string::npos;
+            if (!okd || !msgd || !okl || !msgl) { char b[640]; snprintf(b, sizeof b, "\"solution\":\"%s\",\"context\":0,\"fn\":\"%s\",\"sig\":\"%s\",\"scalar\":\"%s\",\"sign_tuple\":%d,\"args\":[%.17Lg,%.17Lg,%.17Lg,%.17Lg],\"value\":\"%.21Lg\",\"printed_error\":%s", sol.c_str(), e.name, e.sig, (!okd || !msgd) ? "d" : "ld", c, A.s[0], A.s[1], A.s[2], A.s[3], (!okd || !msgd) ? (LD)vd : vl, ((!okd || !msgd) ? msgd : msgl) ? "true" : "false");
+              viol("C15", sol + " [sign lattice]: masa_eval_" + e.name + "(" + e.sig + ") is not provided but at arguments with sign pattern #" + std::to_string(c) + " it " + (((!okd || !msgd) ? okd : okl) ? "printed no MASA ERROR line" : "returned a value other than -1.33"), b); }
+          }
+        }
       }
       std::string snap1 = snapshot_params(); va++;
       if (snap1 != snap0) viol("C15", sol + ": parameters changed while calling unprovided evaluators", "\"solution\":\"" + sol + "\"");
@@ -326,6 +338,19 @@ static int mode_c14(const Caps& D, const Caps& P) {
               if (!(v == v) || std::isinf(v) || v == (LD)-1.33 || o.find("MASA ERROR") != std::string::npos) {
                 char bb[400]; snprintf(bb, sizeof bb, "\"name\":\"%s\",\"context\":%d,\"fn\":\"%s\",\"sig\":\"%s\",\"scalar\":\"%s\",\"value\":\"%.21Lg\"", n.c_str(), ctx, fn.c_str(), sig.c_str(), ld ? "ld" : "d", v);
                 viol("C14", n + " [context " + std::to_string(ctx) + "]: masa_eval_" + fn + "(" + sig + ") at an interior point with default parameters is not a finite non-sentinel value", bb);
+              }
+              // point lattice (fresh context): every scalar argument over {5/16, 1/2, 1, 3}, all combinations: integer and half-integer
+              // coordinates are where a trigonometric factor of the default parameter set sits exactly on a zero or an extremum
+              if (ctx == 0 && e->ns > 0) {
+                static const LD LAT[4] = {0.3125L, 0.5L, 1.0L, 3.0L}; int ncomb = 1; for (int q = 0; q < e->ns; q++) ncomb *= 4;
+                for (int c = 1; c < ncomb; c++) {
+                  ApiArgs B = args_tuple(0); int cc = c; for (int q = 0; q < e->ns; q++) { B.s[q] = LAT[cc % 4]; cc /= 4; }
+                  LD w = 0; std::string o2 = capture([&] { w = ld ? e->cl(B) : (LD)e->cd(B); }); tr++; va++;
+                  if (!(w == w) || std::isinf(w) || w == (LD)-1.33 || o2.find("MASA ERROR") != std::string::npos) {
+                    char bb[500]; snprintf(bb, sizeof bb, "\"name\":\"%s\",\"context\":0,\"fn\":\"%s\",\"sig\":\"%s\",\"scalar\":\"%s\",\"lattice_point\":%d,\"args\":[%.17Lg,%.17Lg,%.17Lg,%.17Lg],\"value\":\"%.21Lg\"", n.c_str(), fn.c_str(), sig.c_str(), ld ? "ld" : "d", c, B.s[0], B.s[1], B.s[2], B.s[3], w);
+                    viol("C14", n + " [point lattice]: masa_eval_" + fn + "(" + sig + ") with default parameters is not a finite non-sentinel value at lattice point #" + std::to_string(c), bb);
+                  }
+                }
               }
             }
             capture([&] { ip = ld ? masa_init_param<LD>() : masa_init_param<double>(); });
